@@ -902,6 +902,9 @@ def call_method(self, recv, name, args, kwargs, st, node):
                 raise Untranslatable(f"method {t.cls}.{name} has no contract")
             fnode, _, _ = self.src.find(c)
             static = any(isinstance(d, ast.Name) and d.id == "staticmethod" for d in fnode.decorator_list)
+            if c.yields:
+                yield self.call_generator_view(c, ([] if static else [recv]) + list(args), kwargs, st, node), st
+                return
             yield from self.call_contract(c, ([] if static else [recv]) + list(args), kwargs, st, node)
             return
         if isinstance(t, Fun):
